@@ -1016,6 +1016,8 @@ pub struct MpcMsg {
 pub enum MpcMsgError {
     #[error("polytune engine is unreachable")]
     Unreachable,
+    #[error("message from unknown party {0}")]
+    UnknownSender(usize),
 }
 
 impl<B, C> PolicyState<B, C>
@@ -1025,7 +1027,13 @@ where
 {
     #[tracing::instrument(level = Level::TRACE, skip(self, ret))]
     async fn msg(&self, mpc_msg: MpcMsg, ret: Ret<MpcMsgError>) -> ControlFlow<()> {
-        match self.channel_senders[mpc_msg.from].send(mpc_msg.data).await {
+        // The sender index comes from the remote party. Before a policy is scheduled there are no
+        // channels at all.
+        let Some(sender) = self.channel_senders.get(mpc_msg.from) else {
+            ret_err(ret, MpcMsgError::UnknownSender(mpc_msg.from));
+            return ControlFlow::Continue(());
+        };
+        match sender.send(mpc_msg.data).await {
             Ok(_) => {
                 let _ = ret.send(Ok(()));
                 ControlFlow::Continue(())
